@@ -487,3 +487,44 @@ Fixpoint inst (args : list value) (te : texpr) {struct te} : expr :=
 
 Definition tbody (prog : list texpr) (t : nat) (args : list value) : expr :=
   inst args (nth t prog (TC (VInt 0))).
+
+(* ------------------------------------------------------------------------------------------ *)
+(** * Correspondence interface (harness/props/c07.py)
+
+    Several runs (op lists) of one program are replayed; the real hashes are compared with the model's
+    structures as PARTITIONS: two recorded objects (argument lists, results, call nodes — over all jobs
+    of all runs) must have the same real hash iff they are the same structure in the model.  A class is
+    named by the index of its first member. *)
+Fixpoint first_idx {A} (eqb : A -> A -> bool) (x : A) (l : list A) (i : nat) : nat :=
+  match l with
+  | [] => i
+  | y :: r => if eqb y x then i else first_idx eqb x r (S i)
+  end.
+Definition classify {A} (eqb : A -> A -> bool) (l : list A) : list nat :=
+  map (fun x => first_idx eqb x l 0) l.
+
+Definition complete (s : state) : bool :=
+  forallb (fun jb => match j_st jb with SRes _ _ _ _ _ => true | _ => false end) s.
+
+Definition job_pre (jb : job) : list value := match st_pre (j_st jb) with Some p => p | None => [] end.
+Definition job_resv (jb : job) : value := match st_res (j_st jb) with Some (r, _) => r | None => VInt 0 end.
+Definition job_node (jb : job) : cnode :=
+  match st_res (j_st jb) with Some (_, n) => n | None => CN 0 [] (VInt 0) [] end.
+
+Definition runs_of (c : cfg) (prog : list texpr) (rootargs : list value) (opss : list (list op))
+  : option (list state) :=
+  mapM (fun ops => match run c (tbody prog) (init 0 rootargs) ops with
+                   | Some s => if complete s then Some s else None
+                   | None => None
+                   end) opss.
+
+Definition check_prog (c : cfg) (prog : list texpr) (rootargs : list value) (opss : list (list op))
+    (exp_tasks : list (list nat)) (exp_args exp_res exp_node : list nat) : bool :=
+  match runs_of c prog rootargs opss with
+  | Some ss =>
+      list_eqb (list_eqb Nat.eqb) (map (map j_task) ss) exp_tasks &&
+      list_eqb Nat.eqb (classify (list_eqb value_eqb) (flat_map (map job_pre) ss)) exp_args &&
+      list_eqb Nat.eqb (classify value_eqb (flat_map (map job_resv) ss)) exp_res &&
+      list_eqb Nat.eqb (classify cnode_eqb (flat_map (map job_node) ss)) exp_node
+  | None => false
+  end.
